@@ -112,6 +112,8 @@ THEOREMS = [
     "OllamaVerif.C06.F28_refused_remove_notsup",
     "OllamaVerif.C06.canResume_sound",
     "OllamaVerif.C06.canResume_sound_on_contract",
+    "OllamaVerif.C06.approved_resume_sees_complete_window",
+    "OllamaVerif.C06.mem_abs_remove_inf",
     "OllamaVerif.C06.nodupPos_runT",
     "OllamaVerif.C06.nodupPos_specStepT",
     "OllamaVerif.C06.canResume_contract_nonvacuous",
